@@ -158,14 +158,23 @@ def conventional_api(draw, lro=True, streaming=True):
             rand_fields(cr, 1, draw(st.integers(0, 3)), response_top=True)
             ss = streaming and draw(st.integers(0, 9)) < 3
             body = draw(st.sampled_from(["*", "*", None]))
+            uri = f"/v1/{{name={star}}}:frob"
+            sig = ["name"]
+            if draw(st.integers(0, 3)) == 0:
+                # a second path variable named by a reserved word (covered by the signature, as the profile requires)
+                used = {x["name"] for x in c["fields"]}
+                word = draw(st.sampled_from([w for w in ("from", "type", "class", "format", "license", "import") if w not in used]))
+                c["fields"].append({"name": word, "number": 40, "type": "string", "required": True})
+                uri = f"/v1/{{name={star}}}/parts/{{{word}}}:frob"
+                sig = [f"name,{word}"]
             m = {"name": f"Frob{R}", "input": P + f"Frob{R}Request", "output": P + f"Frob{R}Response",
-                 "http": {"verb": "post", "uri": f"/v1/{{name={star}}}:frob"}}
+                 "http": {"verb": "post", "uri": uri}}
             if body:
                 m["http"]["body"] = body
             if ss:
                 m["ss"] = True
-            if draw(st.booleans()):
-                m["signatures"] = ["name"]
+            if draw(st.booleans()) or len(sig[0].split(",")) > 1:
+                m["signatures"] = sig
             methods.append(m)
     if streaming and draw(st.booleans()):
         methods.append({"name": "Chat", "input": P + "Detail", "output": P + "Detail", "cs": True, "ss": draw(st.booleans())})
